@@ -12,17 +12,20 @@ PKGS = ["errors", "strconv", "strings", "bytes", "math", "os", "io", "unicode/ut
 
 
 def import_block(rng, lang):
-    """returns (text, n_specs); .wz has no parenthesised form: one `引入` per line"""
+    """returns (text, has_alias); .wz has no parenthesised form: one `引入` per line.
+    A block has EITHER aliased specs OR comments: an aliased spec next to a comment inside a
+    parenthesised block is the known ImportSpec.Pos/End defect (covered by fixed inputs of the check)."""
     n = rng.randrange(1, 7)
     specs = []
+    aliases = rng.random() < 0.5
     for _ in range(n):
         p = rng.choice(PKGS)
-        name = rng.choice(["", "", "", "_", "x%d" % rng.randrange(3)])
-        cm = rng.choice(["", "", "", " // c%d" % rng.randrange(9)])
+        name = rng.choice(["", "", "_", "x%d" % rng.randrange(3)]) if aliases else ""
+        cm = "" if aliases else rng.choice(["", "", " // c%d" % rng.randrange(9)])
         specs.append((p, name, cm))
     if rng.random() < 0.4 and specs:
         specs.append(rng.choice(specs))                       # exact duplicate
-    if rng.random() < 0.3 and specs:
+    if rng.random() < 0.3 and specs and not aliases:
         p, name, cm = rng.choice(specs)
         specs.append((p, name, "" if cm else " // dup"))     # duplicate differing only in the comment
     rng.shuffle(specs)
@@ -32,17 +35,17 @@ def import_block(rng, lang):
             lines.append('引入 "%s"%s%s' % (p, (" => " + name) if name else "", cm.replace("//", "注:") if rng.random() < 0.5 else cm))
             if rng.random() < 0.2:
                 lines.append("")
-        return "\n".join(lines) + "\n\n", len(specs)
+        return "\n".join(lines) + "\n\n", aliases
     form = rng.random()
     if form < 0.25:
         for p, name, cm in specs:
             lines.append('import "%s"%s%s' % (p, (" => " + name) if name else "", cm))
-        return "\n".join(lines) + "\n\n", len(specs)
+        return "\n".join(lines) + "\n\n", aliases
     lines.append("import (")
     for i, (p, name, cm) in enumerate(specs):
         if i and rng.random() < 0.2:
             lines.append("")                                  # new run
-        if rng.random() < 0.15:
+        if rng.random() < 0.15 and not aliases:
             lines.append("\t// lead %d" % i)
         lines.append('\t"%s"%s%s' % (p, (" => " + name) if name else "", cm))
     lines.append(")")
@@ -52,10 +55,10 @@ def import_block(rng, lang):
         lines.append('\t"sort"')
         lines.append('\t"bytes"')
         lines.append(")")
-    return "\n".join(lines) + "\n\n", len(specs)
+    return "\n".join(lines) + "\n\n", aliases
 
 
-def plan_edits(rng, text, lang, level=0.25):
+def plan_edits(rng, text, lang, level=0.25, protect=0):
     """a list of independent edits of the cleanly rendered `text`; each edit is a dict with
     'id', 'cat' ('comment' | 'layout') and what `apply_edits` needs.  Comment texts are unique (cN)."""
     cnt = [0]
@@ -71,6 +74,8 @@ def plan_edits(rng, text, lang, level=0.25):
     edits = []
 
     def add(cat, kind, **kw):
+        if cat == "comment" and kw.get("line", protect) < protect:
+            return          # no comments inside the first `protect` lines (an import block with aliases)
         kw.update(id=len(edits), cat=cat, kind=kind)
         edits.append(kw)
     lines = text.split("\n")
